@@ -505,6 +505,67 @@ def compare(model_line, impl_line):
     return "model-stuck"
 
 
+
+# ------------------------------------------------------------------------------------------------
+# programs with SEVERAL references (response to seeded change C17c: a memo of resolved paths filled by a legal reference and consulted by a
+# later illegal one).  The resolution model above judges one probe reference in a tree of constant functions; here earlier references
+# (legal ones, from inside the module: absolute path, relative path, bare name, through `use`) precede the judged reference to the same member.
+# Oracle, independent of the model: a reference from OUTSIDE a module to a member not declared `pub` (by qualified path, `use`, multi-import,
+# wildcard import) must be rejected; the same program with the member declared `pub` must be accepted and play the expected value.
+def gen_context_case(rng):
+    outer = rng.choice(["vault", "ma", "mb"])
+    nested = rng.chance(1, 3)
+    inner = rng.choice(["deep", "mab"])
+    member = rng.choice(["secret", "fa", "fb"])
+    val = rng.range(2, 90)
+    mpath = [outer] + ([inner] if nested else [])
+    qual = "::".join(mpath + [member])
+    inside_forms = {"absolute": qual + "()", "bare": member + "()", "relative": (inner + "::" + member + "()") if nested else member + "()",
+                    "none": "1.0"}
+    inside = rng.choice(["absolute", "absolute", "absolute", "bare", "relative", "none"])
+    inside_where = rng.choice(["same", "nested-child", "parent"]) if nested else rng.choice(["same", "nested-child"])
+    route = rng.choice(["qualified", "qualified", "use", "multi", "wildcard"])
+    outside_where = rng.choice(["dsp", "topfn", "sibling-mod"])
+    order = rng.choice(["inside-first", "inside-first", "outside-first"])
+
+    def render(pub):
+        vis = "pub " if pub else ""
+        helper_expr = inside_forms[inside]
+        if inside_where == "nested-child" and inside == "bare":
+            helper_expr = qual + "()"          # a child module does not see the parent's private names by bare name
+        helper = "pub fn open(){ %s + 0.0 }" % helper_expr
+        member_decl = "%sfn %s(){ %d.0 }" % (vis, member, val)
+        if nested:
+            body_inner = [member_decl] + ([helper] if inside_where == "same" else []) + \
+                         (["pub mod kid { pub fn open(){ %s + 0.0 } }" % (qual + "()")] if inside_where == "nested-child" else [])
+            body_outer = ["pub mod %s {\n    %s\n  }" % (inner, "\n    ".join(body_inner))] + \
+                         (["pub fn open(){ %s + 0.0 }" % (qual + "()" if inside != "none" else "1.0")] if inside_where == "parent" else [])
+        else:
+            body_outer = [member_decl] + ([helper] if inside_where == "same" else []) + \
+                         (["pub mod kid { pub fn open(){ %s + 0.0 } }" % (qual + "()")] if inside_where == "nested-child" else [])
+        module = "mod %s {\n  %s\n}\n" % (outer, "\n  ".join(body_outer))
+        if route == "qualified":
+            imp, ref = "", qual + "()"
+        elif route == "use":
+            imp, ref = "use %s\n" % qual, member + "()"
+        elif route == "multi":
+            imp, ref = "use %s::{%s}\n" % ("::".join(mpath), member), member + "()"
+        else:
+            imp, ref = "use %s::*\n" % "::".join(mpath), member + "()"
+        if outside_where == "dsp":
+            user, call = "", ref
+        elif outside_where == "topfn":
+            user, call = "fn user(){ %s }\n" % ref, "user()"
+        else:
+            user, call = "mod other {\n  %spub fn user(){ %s }\n}\n" % (imp.replace("\n", "\n  ") if imp else "", ref), "other::user()"
+            imp = ""
+        parts = [module, imp + user] if order == "inside-first" else [imp + user, module]
+        if route != "qualified" and order == "outside-first" and outside_where != "sibling-mod":
+            parts = [module, imp + user]           # a `use` must follow the module it names
+        return "".join(parts) + "fn dsp(){\n  %s\n}\n" % call
+    return {"private": render(False), "public": render(True), "value": float(val),
+            "desc": "member %s, inside reference %s (%s), outside route %s from %s, %s" % (qual, inside, inside_where, route, outside_where, order)}
+
 def run(ck):
     ck.level = "proof"
     proved = ck.prove(tables=[], extra_targets=["theories/Extract/ModulesExtract.vo"])
@@ -649,19 +710,46 @@ def run(ck):
         o.update(extra)
         return o
 
+    # ---- several references per program (implementation only) ----
+    rc_l, out_l, bindir_l = cargo_build("lang", ["lmmm_run"])
+    ctx_fail = []
+    if rc_l == 0:
+        sys.path.insert(0, os.path.join(VERIF, "lib"))
+        import lmmm as _lm
+        ccases = [gen_context_case(ck.rng.fork(("context", i))) for i in range(150 if ck.tier == "quick" else 2000)]
+        cres = _lm.run_impl(os.path.join(bindir_l, "lmmm_run"), [{"src": c[k], "n": 1, "state": False, "backends": ["vm"]} for c in ccases for k in ("private", "public")])
+        cst = {"context_cases": len(ccases), "context_private_rejected": 0, "context_public_accepted": 0, "context_public_rejected_for_other_reasons": 0}
+        for i, c in enumerate(ccases):
+            rp, ru = cres[2 * i].get("vm", cres[2 * i]), cres[2 * i + 1].get("vm", cres[2 * i + 1])
+            if "samples" in ru and ru["samples"] and "out" in ru["samples"][0]:
+                got = _lm.bits_to_float(ru["samples"][0]["out"][0])
+                if got != c["value"]:
+                    ctx_fail.append(("a reference to a PUBLIC member does not denote the definition its path names: got %s, expected %s (%s)" % (got, c["value"], c["desc"]), c["public"]))
+                    continue
+                cst["context_public_accepted"] += 1
+                if "samples" in rp:
+                    ctx_fail.append(("violation:private-member-reached (a program with several references: %s)" % c["desc"], c["private"]))
+                else:
+                    cst["context_private_rejected"] += 1
+            else:
+                cst["context_public_rejected_for_other_reasons"] += 1
+        ck.coverage.update(cst)
+    for what, src in ctx_fail[:3]:
+        ck.violation("property fails on the implementation: " + what, {"source": src, "how": "echo '{\"src\":<source>,\"n\":1}' | .cache/target/lang/debug/lmmm_run"})
+    prop_fail = prop_fail + [(None, w, None) for w, _ in ctx_fail] if False else prop_fail
     for (i, verdict, detail) in prop_fail[:5]:
         ck.violation("property fails on the implementation: " + verdict, replay_obj(i, {"detail": detail}))
     for (name, src, expect, got) in wit_bad[:3]:
         ck.broken.append("witness " + name)
         ck.violation("witness/fixture program '%s' no longer behaves as recorded (the theorem of that name in Props/C17.v is about the model, "
                      "the model no longer describes the code)" % name, {"source": src, "expected": expect, "implementation": got}, no_input=True)
-    if disagreements and not prop_fail:
+    if disagreements and not prop_fail and not ctx_fail:
         i, why, m_, i_ = disagreements[0]
         ck.broken.append("correspondence Modules.Model vs program.rs/convert_qualified_names.rs: " + why)
         ck.violation("model and implementation disagree (%s); no clause of the property fails on the explored inputs" % why,
                      replay_obj(i, {"model": m_, "disagreements": len(disagreements), "kinds": sorted(set(d[1] for d in disagreements))}),
                      no_input=True)
-    if not proved and not prop_fail and not disagreements:
+    if not proved and not prop_fail and not disagreements and not ctx_fail:
         ck.violation("a proof obligation of Props/C17.v no longer checks", {"broken": ck.broken}, no_input=True)
     return finish(ck)
 
